@@ -12,12 +12,7 @@ class AbstractOnlineInterpreter(AbstractInterpreter):
         return
 
     def reset(self):
-        # reset sub-specs
-        for key in self.ast.var_subspec_dict:
-            node = self.ast.var_subspec_dict[key]
-            self.resetVisitor.visit(node, self.online_operator_dict)
-
-        # reset spec
+        # reset spec (every sub-spec is one of the entries of ast.specs)
         self.resetVisitor.visitAst(self.ast, self.online_operator_dict)
         return
 
